@@ -232,7 +232,7 @@ func checkC10(c *Ctx) {
 		eachInstr(fn, func(_ *ssa.BasicBlock, _ int, in ssa.Instruction) {
 			if call, ok := in.(*ssa.Call); ok {
 				if g := calleeFn(call.Common()); g != nil {
-					if g.Name() == "decodeInt" {
+					if g.Name() == "decodeInt" || returnsDecodedInt(g) {
 						for _, r := range *call.Referrers() {
 							if ex, ok := r.(*ssa.Extract); ok && ex.Index == 0 {
 								nVal = ex
@@ -260,6 +260,11 @@ func checkC10(c *Ctx) {
 				maxC, _ = constant.Int64Val(k.Val())
 			}
 			c.Check(maxC > 0 && z.entLE(nt, lconst(maxC)) && z.entLE(lconst(0), nt), "R5", "bulk length limit before the read", rf.Pos(), fmt.Sprintf("0 <= n <= %d entailed at the read", maxC), "the payload is allocated/read before the declared length is checked against the limit (a peer can make the proxy allocate any amount)")
+			// ... and no lower one: what the encoder writes the decoder reads back, so a length up to the limit is accepted
+			// (a proof that n is smaller at the read is a proof that such values are rejected)
+			if maxC > 0 {
+				c.Check(!z.entLE(nt, lconst(maxC-1)), "R5", "bulk lengths up to the limit are accepted", rf.Pos(), fmt.Sprintf("n == %d reaches the read", maxC), fmt.Sprintf("at the payload read the length is provably below the documented limit %d (a smaller constant - the array limit, say - is used for bulk strings): the encoder still writes such values, the decoder rejects them with a sticky error - a value the client stored cannot be read back", maxC))
+			}
 			// CR / LF tests at n and n+1, return [:n]
 			var b ssa.Value
 			for _, r := range *rf.Referrers() {
@@ -329,7 +334,7 @@ func checkC10(c *Ctx) {
 		var mk *ssa.MakeSlice
 		eachInstr(fn, func(_ *ssa.BasicBlock, _ int, in ssa.Instruction) {
 			if call, ok := in.(*ssa.Call); ok {
-				if g := calleeFn(call.Common()); g != nil && g.Name() == "decodeInt" {
+				if g := calleeFn(call.Common()); g != nil && (g.Name() == "decodeInt" || returnsDecodedInt(g)) {
 					for _, r := range *call.Referrers() {
 						if ex, ok := r.(*ssa.Extract); ok && ex.Index == 0 {
 							nVal = ex
@@ -353,6 +358,9 @@ func checkC10(c *Ctx) {
 			lt := bc.term(mk.Len)
 			c.Check(lt.v == nt.v && lt.c == nt.c, "R3", "array decoder allocates n elements", mk.Pos(), "make([]RespValue, n)", "the array decoder does not allocate exactly the declared number of elements")
 			c.Check(maxC > 0 && z.entLE(nt, lconst(maxC)) && z.entLE(lconst(0), nt), "R5", "array length limit before the allocation", mk.Pos(), fmt.Sprintf("0 <= n <= %d entailed at the make", maxC), "the element slice is allocated before the declared length is checked against the limit")
+			if maxC > 0 {
+				c.Check(!z.entLE(nt, lconst(maxC-1)), "R5", "array lengths up to the limit are accepted", mk.Pos(), fmt.Sprintf("n == %d reaches the allocation", maxC), fmt.Sprintf("at the allocation the length is provably below the documented limit %d: arrays the encoder writes are rejected by the decoder", maxC))
+			}
 			// returns: nil only when n == -1; otherwise the made slice
 			eachInstr(fn, func(b *ssa.BasicBlock, _ int, in ssa.Instruction) {
 				ret, ok := in.(*ssa.Return)
@@ -1174,4 +1182,43 @@ func checkLineEndMatchesSearch(c *Ctx, rule string) {
 	if n == 0 {
 		c.Unresolved(rule, "no delimiter search in the line reader")
 	}
+}
+
+// returnsDecodedInt: g is a helper that reads a length with decodeInt, range-checks it and returns it: every return
+// with a nil error returns the number decodeInt produced.
+func returnsDecodedInt(g *ssa.Function) bool {
+	if g == nil || g.Blocks == nil || !isModFn(g) || g.Signature.Results().Len() != 2 {
+		return false
+	}
+	var n ssa.Value
+	eachInstr(g, func(_ *ssa.BasicBlock, _ int, in ssa.Instruction) {
+		if call, ok := in.(*ssa.Call); ok {
+			if h := calleeFn(call.Common()); h != nil && h.Name() == "decodeInt" {
+				for _, r := range *call.Referrers() {
+					if ex, ok := r.(*ssa.Extract); ok && ex.Index == 0 {
+						n = ex
+					}
+				}
+			}
+		}
+	})
+	if n == nil {
+		return false
+	}
+	ok, nret := true, 0
+	eachInstr(g, func(_ *ssa.BasicBlock, _ int, in ssa.Instruction) {
+		r, isRet := in.(*ssa.Return)
+		if !isRet {
+			return
+		}
+		vals := returnedValues(r)
+		if len(vals) != 2 || !isNilConst(vals[1]) {
+			return
+		}
+		nret++
+		if vals[0] != n {
+			ok = false
+		}
+	})
+	return ok && nret > 0
 }
